@@ -9,7 +9,7 @@
    `presets`, `linter_sections`, the template, markers, separators, defaults and validators are regenerated
    from /repo on every run (Gen/CfgToolGen.v). *)
 From TL Require Import Lib.Base Lib.GenTypes Model.CfgTypes Gen.CfgToolGen Model.CfgMerge Model.CfgCli
-     Proofs.CfgLines Proofs.CfgMergeMain Proofs.CfgMergeText Proofs.CfgMergeSpec Proofs.CfgInitMain Proofs.CfgCliProofs.
+     Proofs.CfgLines Proofs.CfgMergeMain Proofs.CfgMergeText Proofs.CfgMergeSpec Proofs.CfgInitMain Proofs.CfgCliProofs Proofs.CfgConvert.
 From Coq Require Import ZArith.
 
 (* 1. init-config without --force, every preset, every existing file of the subset, every quirk vector with the two
@@ -52,6 +52,21 @@ Print Assumptions C20_settings_stay_in_effect.
 Theorem C20_old_lines_preserved : forall E R, preserved_b E R = true -> subseq (nonblank E) (nonblank R).
 Proof. intros E R H. exact (subseqb_sound _ _ H). Qed.
 Print Assumptions C20_old_lines_preserved.
+
+(* 2'. byte level, with NO assumption on the existing file (block scalars, quoted text, anything): whenever init-config rewrites
+      the file, the new text is the old text with new lines put in at one place - every old line byte-identical - except that in
+      append mode the white space at the very end of the file is removed. *)
+Theorem C20_raw_text_preserved : forall q preset reps E names R,
+  lookup preset presets = Some reps -> init_config q preset E = Merged names R ->
+  (exists ins, R = rstrip_doc E ++ ins) \/ (exists pre ins post, E = pre ++ post /\ R = pre ++ ins ++ post).
+Proof.
+  intros q preset reps E names R Hl Hr.
+  exact (match init_raw_preserved q preset reps E names R Hl Hr with
+         | RawAppend _ _ ins H => or_introl (ex_intro _ ins H)
+         | RawInsert _ _ pre ins post H1 H2 => or_intror (ex_intro _ pre (ex_intro _ ins (ex_intro _ post (conj H1 H2))))
+         end).
+Qed.
+Print Assumptions C20_raw_text_preserved.
 
 (* 3. the file generated for each preset: a block document that has every linter section under its hyphenated
       name, no two keys that normalise to the same name, no placeholder left, and on which init-config finds
@@ -114,6 +129,13 @@ Theorem C20_set_then_get : forall q ex f k t,
   step q ex f' (CGet k) = Build_obs 0 (Some (show (convert t))) f'.
 Proof. exact set_then_get. Qed.
 Print Assumptions C20_set_then_get.
+
+(* 5'. what `config get` prints denotes the accepted value: reading the printed text back with the conversion of `config set`
+      gives the stored value again - for EVERY text (booleans print as True/False, integers without sign/zeros padding, decimals
+      in repr form, anything else verbatim).  Proved inside Coq from the decimal printing of the standard library. *)
+Theorem C20_get_prints_the_accepted_value : forall t, convert (show (convert t)) = convert t.
+Proof. exact get_prints_the_accepted_value. Qed.
+Print Assumptions C20_get_prints_the_accepted_value.
 
 (* 6. histories: for every quirk vector, every sequence of set / get / reset commands (hyphenated keys included) from every
       initial file (absent, valid, invalid; --config given or not), every step of the model trace meets the trace
